@@ -109,6 +109,7 @@ def run(ctx):
             ctx.guarded(r, AK_.check_call_helper, kind, n)
     from .. import a64checks as XC
 
-    r = ctx.rule("R7c", "aarch64 tracing assemblers follow the choice protocol simplify relies on (byte loaded, one choice ORed, flag iff decided, stored back with x1 += 1, value = chosen operand)", 26 + 28)
+    r = ctx.rule("R7c", "aarch64 tracing assemblers follow the choice protocol simplify relies on (byte loaded, one choice ORed, flag iff decided, stored back with x1 += 1, value = chosen operand)", 26 + 28 + 8)
     for kind in XC.TRACING:
         ctx.guarded(r, XC.check_choice_protocol, kind)
+    ctx.guarded(r, XC.check_strictness)
